@@ -203,6 +203,16 @@ def check_flush(ctx, num=3, only=None):
                 okb = way is None
             ctx.ob(num, "K16", f"{meth}: a new group is started only where the {keyattr} changes (rows with the same {keyattr} are never split over two groups)", okb, f, s_,
                    construct="group boundary = change of key", detail=f"facts at the start of a group: {sorted(norm.show(z) for z in fs_)[:8]}")
+        # inside the pass the group list is only ever started afresh with the element that opens the next group: it is never emptied, cut or
+        # re-bound to anything else (a group handed over in pieces is two groups — or an empty one — for whoever consumes them)
+        rebinds = [n for n in ast.walk(lp) if isinstance(n, (ast.Assign, ast.AugAssign, ast.AnnAssign, ast.Delete))
+                   and any(norm.U(t) == B or (isinstance(t, ast.Subscript) and norm.U(t.value) == B)
+                           for t in (n.targets if isinstance(n, (ast.Assign, ast.Delete)) else [n.target])) and not any(n is s_ for s_ in starts)]
+        cuts = [c for c in ast.walk(lp) if isinstance(c, ast.Call) and isinstance(c.func, ast.Attribute) and norm.U(c.func.value) == B
+                and c.func.attr in ("clear", "pop", "remove", "insert", "extend", "reverse", "sort")]
+        ctx.ob(num, "K16", f"{meth}: during the pass the group list only grows by the current element or is started afresh with it (never emptied, cut or re-bound otherwise)",
+               not rebinds and not cuts, f, (rebinds + cuts)[0] if rebinds or cuts else lp, construct="group list updates",
+               detail=f"{[stmt_text(poolmod.stmt_of(x))[:70] for x in rebinds + cuts]}" if rebinds or cuts else f"{len(starts)} start(s), {len(apps)} append(s)")
         # yield-before-reset: a group start that is not the first must be preceded by a yield of the old group in the same iteration
         ys = [n for n in g.nodes if n.is_yield and n.ast is not None and any(n.ast is z for z in ast.walk(lp))]
         IN_noyield = g.facts(blocked={y.id for y in ys})
